@@ -29,8 +29,10 @@ def tablesDiag (pid : String) : String :=
         | none => some s!"package-{pc.1}-has-no-category")
     | "C06" =>
       GGV.Gen.factFields.filterMap (fun f => if f.2.2.1 && f.2.2.2.2 then none else some s!"fact-field-{f.1}.{f.2.1}-of-type-{f.2.2.2.1}-not-exported-or-not-gob-transmissible") ++
-      (GGV.Gen.analyzers.filter (fun a => a.exports > 0)).flatMap (fun a =>
-        a.returnsBeforeExport.filterMap fun c => if c == "result == nil" || c == "!ok" then none else some s!"analyzer-{a.name}-returns-before-export-when-{c.replace " " "_"}")
+      GGV.Gen.analyzers.flatMap (fun a =>
+        a.facts.filterMap fun f => if a.exportedOnEmpty.contains f then none else some s!"analyzer-{a.name}-exports-no-{f}-for-a-package-without-declarations") ++
+      GGV.Gen.analyzers.filterMap (fun a =>
+        if !a.facts.isEmpty && a.name != "annotationreader" && !(a.requires.contains "annotationreader") then some s!"analyzer-{a.name}-does-not-require-the-annotation-reader" else none)
     | "C11" =>
       GGV.Gen.packageVarWrites.filterMap (fun w =>
         if w.2.2.1 == "assign-under-once" ||
